@@ -7,13 +7,21 @@ use xml_schema_generator::{Element, Options, SortBy};
 
 /// a string as the specification sees it: a sequence of one-character strings
 pub fn chars(s: &str) -> Value {
-    Value::Array(s.chars().map(|c| json!(c.to_string())).collect())
+    // non-ASCII characters travel as ASCII atoms uXXXX (TLC mangles non-ASCII strings read from JSON)
+    Value::Array(s.chars().map(|c| if c.is_ascii() { json!(c.to_string()) } else { json!(format!("u{:04x}", c as u32)) }).collect())
 }
 
 pub fn unchars(v: &Value) -> String {
     match v {
         Value::String(s) => s.clone(),
-        Value::Array(a) => a.iter().map(|c| c.as_str().unwrap_or("")).collect(),
+        Value::Array(a) => a.iter().map(|c| {
+            let t = c.as_str().unwrap_or("");
+            if t.len() > 1 && t.starts_with('u') {
+                u32::from_str_radix(&t[1..], 16).ok().and_then(char::from_u32).map(|ch| ch.to_string()).unwrap_or_default()
+            } else {
+                t.to_string()
+            }
+        }).collect(),
         _ => String::new(),
     }
 }
